@@ -29,7 +29,7 @@ func (c02Harness) Gen(r *verifsim.SplitMix, tier string, idx int) any {
 		nf = 2
 	}
 	for i := 0; i < nf; i++ {
-		f := txFault{Kind: c02Kinds[r.Intn(len(c02Kinds))], At: -1 - r.Intn(1000), Arg: r.Intn(1 << 20), Arg2: r.Intn(2)}
+		f := txFault{Kind: c02Kinds[r.Intn(len(c02Kinds))], At: -1 - r.Intn(1000), Arg: r.Intn(1 << 20), Arg2: r.Intn(12)}
 		switch f.Kind {
 		case "fs_err":
 			f.Op = fsErrOps[r.Intn(len(fsErrOps))]
